@@ -159,7 +159,10 @@ WF_SPELL = {
     "text": ["", "a", " a ", "-", "nan", "None", "1.5", "é µ", "*", "x" * 12, " ", "TRUE", "k:"],
     "onoff": ["0", "1", "true", "false", "True", "FALSE", " tRuE ", " 0 ", "TRUE\n"],
     "datetime": ["2020-01-02", "2020-01-02 03:04:05", "2020-01-02T03:04:05.000006", "2020-1-2", "20200102", "-", "nan",
-                 "NaN", " NAN ", " - ", "2262-04-12", "1677-01-01", "2020"],
+                 "NaN", " NAN ", " - ", "2262-04-12", "1677-01-01", "2020",
+                 # UTC designator / offsets: the parsed value is the zone-aware instant (a column mixing zones is an
+                 # input error and is skipped by the oracle)
+                 "2020-08-04T08:00:00Z", "2020-08-04 08:00:00+01:00", "2020-08-04T08:00:00z"],
     "num": ["0", "1", "-1", "1.5", "-0.0", "1e3", "1E-3", ".5", "5.", "+2", "1_000", "inf", "-inf", "Infinity", "1e400",
             "nan", "NaN", "-", " - ", " NAN ", "3.14159265358979", "123456789012345678", "1e-400", " 7 ", "１２", "١٢"],
 }
